@@ -49,8 +49,9 @@ func buildOnce(w *kit.World, tag string) outcome {
 	m := kit.NewModel(w)
 	m.Prop = "C06"
 	m.Build()
-	// wiring isomorphic to the model (hence to every other build)
-	for r := 0; r < w.N; r++ {
+	// wiring isomorphic to the model (hence to every other build); worlds the
+	// model considers unbuildable only have their verdicts compared
+	for r := 0; r < w.N && buildable(w); r++ {
 		if w.Regs[r].Life != kit.LSingleton {
 			continue
 		}
@@ -87,8 +88,9 @@ func H_Order() {
 	vrt.Assume(sane(w))
 	vrt.Assume(!w.Duplicate())
 	knownBuildDefects(w)
-	cyc := w.Cyclic()
-	vrt.Finding("KF-C05-group-cycle", cyc && !w.CyclicWithoutGroups())
+	// cycles that exist only through group edges are C05's subject (Build may
+	// not even terminate on them)
+	vrt.Assume(!(w.Cyclic() && !w.CyclicWithoutGroups()))
 
 	o1 := buildOnce(w, "first build")
 
